@@ -99,6 +99,25 @@ def handle (ws : List String) : String :=
             | .error .notFloat => "ok error notFloat"
             | .error .noMatch => "ok error noMatch")
        | none => "err bad-hex")
+  | ["opttokens", hx] =>
+      -- the options text of a cell card -> keyword tokens in reading order
+      (match unhex hx with
+       | some t => "ok " ++ " ".intercalate ((CC.optTokens t.toList).map fun w => "=" ++ hex (String.ofList w))
+       | none => "err bad-hex")
+  | ["surfsplit", hx] =>
+      (match unhex hx with
+       | some t =>
+           (match CC.splitSurface t.toList with
+            | some p => s!"ok ={hex (String.ofList p.name)} ={hex (String.ofList p.tr)} ={hex (String.ofList p.mn)} ={hex (String.ofList p.params)}"
+            | none => "ok error noMatch")
+       | none => "err bad-hex")
+  | ["datasplit", hx] =>
+      (match unhex hx with
+       | some t =>
+           (match CC.splitData t.toList with
+            | some p => s!"ok ={hex (String.ofList p.typ)} ={hex (String.ofList p.name)} ={hex (String.ofList p.star)} ={hex (String.ofList p.params)}"
+            | none => "ok error noMatch")
+       | none => "err bad-hex")
   | ["geomcomp", hx] =>
       match unhex hx >>= Sexp.parse with
       | some s => runGeomComp s
